@@ -57,6 +57,15 @@ class Loader:
         if relpath in self.modules:
             return self.modules[relpath]
         tree, info = self.parse(relpath)
+        try:
+            from . import renames
+            from .interp import SPEC_RENAMES
+            for q, m in renames.rename_maps(relpath, tree).items():
+                SPEC_RENAMES[f"{relpath}::{q}"] = m
+                self.renamed = getattr(self, "renamed", {})
+                self.renamed[f"{relpath}::{q}"] = m
+        except Exception:
+            pass
         mod = Module(relpath, {})
         mod.relpath = relpath
         mod.is_cython = relpath.endswith(".pyx")
